@@ -232,6 +232,62 @@ class Paths:
         raise TE(f'{self.fname}: unsupported statement kind {k}')
 
 
+class Progs(Paths):
+    """The same statement walk, but keeping the *interleaving* of decisions and actions: a decision
+    tree `ret | act a k | ite c t e` (the continuation of an `if` is duplicated into both branches,
+    an early `return` cuts it).  This is the program the Lean interpreter (`Model/C16Exec.lean`)
+    executes: the model the driver runs is this regenerated description."""
+
+    def build(self, stmts):
+        if not stmts:
+            return ('ret',)
+        s, rest = stmts[0], list(stmts[1:])
+        k = s[0]
+        if k == 'block':
+            return self.build(list(s[1]) + rest)
+        if k == 'return':
+            if s[1] is not None and show(s[1]) == '{this}':
+                return ('act', 'returnGuard', ('ret',))
+            if s[1] is not None and show(s[1]) != '*this':
+                raise TE(f'{self.fname}: return `{show(s[1])}`')
+            return ('ret',)
+        if k == 'if':
+            c = self.cond(s[1])
+            th = self.build([s[2]] + rest)
+            el = self.build(([s[3]] if s[3] is not None else []) + rest)
+            return ('ite', c, th, el)
+        if k == 'decl':
+            acts = self.act_of_decl(s)
+        elif k == 'expr':
+            acts = self.act_of_expr(s[1])
+        else:
+            raise TE(f'{self.fname}: unsupported statement kind {k}')
+        p = self.build(rest)
+        for a in reversed(acts):
+            p = ('act', a, p)
+        return p
+
+
+def prog_paths(p, conds=(), acts=()):
+    """control-flow paths of a program tree (used to cross-check the two walks)"""
+    if p[0] == 'ret':
+        return [(list(conds), list(acts))]
+    if p[0] == 'act':
+        return prog_paths(p[2], conds, acts + (p[1],))
+    return (prog_paths(p[2], conds + ((p[1], True),), acts) +
+            prog_paths(p[3], conds + ((p[1], False),), acts))
+
+
+def lean_prog(p, ind=2):
+    sp = ' ' * ind
+    if p[0] == 'ret':
+        return sp + '.ret'
+    if p[0] == 'act':
+        # chains of actions on consecutive lines, same indentation
+        return sp + f'(.act .{p[1]}\n' + lean_prog(p[2], ind) + ')'
+    return (sp + f'(.ite .{p[1]}\n' + lean_prog(p[2], ind + 2) + '\n' + lean_prog(p[3], ind + 2) + ')')
+
+
 # ------------------------------------------------------------------ region location
 
 def function_parts(src, anchor, which=0):
@@ -293,6 +349,7 @@ FUNCS = [
 def extract_shapes(src):
     shapes = {}
     hashes = {}
+    progs = {}
     for name, anchor in FUNCS:
         inits, body = function_parts(src, anchor)
         pre = []
@@ -305,8 +362,16 @@ def extract_shapes(src):
         P = Paths(name)
         paths = P.run(ss)
         shapes[name] = [(c, pre + a) for c, a in paths]
+        prog = Progs(name).build(ss)
+        for a in reversed(pre):
+            prog = ('act', a, prog)
+        # the two walks of the same statements must describe the same set of paths
+        pp = prog_paths(prog)
+        if sorted(map(repr, pp)) != sorted(map(repr, shapes[name])) or len(pp) != len(shapes[name]):
+            raise TE(f'{name}: program tree and path table disagree')
+        progs[name] = prog
         hashes[name] = cp.ast_hash((inits, ss))
-    return shapes, hashes
+    return shapes, hashes, progs
 
 
 def extract_construct_inplace(src):
@@ -515,7 +580,7 @@ def main(out_path):
     regions = {}
     defs, h = extract_predicates(src)
     regions.update({k: {'file': 'util/type-erasure.hpp', 'hash': v} for k, v in h.items()})
-    shapes, h = extract_shapes(src)
+    shapes, h, progs = extract_shapes(src)
     regions.update({k: {'file': 'util/type-erasure.hpp', 'hash': v, 'paths': len(shapes[k])}
                     for k, v in h.items()})
     ptr_acts, obj_acts, hci = extract_construct_inplace(src)
@@ -573,6 +638,13 @@ def main(out_path):
     }
     for name, _ in FUNCS:
         L.append(lean_paths(name, shapes[name], docs[name]) + '\n')
+    L.append('/-! ### The same functions as programs: decisions and actions in statement order\n\n'
+             '  `ite c t e`: `if (c) t else e`, the statements after the `if` are continued in both\n'
+             '  branches; `ret`: `return` / end of the body.  `Model/C16Exec.lean` executes these. -/\n\n'
+             'inductive Prog\n  | ret\n  | act (a : Act) (k : Prog)\n  | ite (c : Cond) (t e : Prog)\n'
+             '  deriving DecidableEq, Repr\n\n')
+    for name, _ in FUNCS:
+        L.append(f'/-- {docs[name]} -/\ndef {name}P : Prog :=\n' + lean_prog(progs[name]) + '\n\n')
     L.append('/-- construct_inplace, pointer branch -/\n'
              f'def constructInplacePtr : List Act := [{", ".join("." + a for a in ptr_acts)}]\n'
              '/-- construct_inplace, object branch -/\n'
